@@ -20,6 +20,9 @@ KNOBS = (
     "CHUNK_SIZE_COLUMNS_FOR_DROP_COLUMNS",
     "CHUNK_SIZE_ROWS_FOR_DROP_COLUMNS",
     "MERGE_SORT_CHUNK_SIZE",
+    # a literal in brew.make_train_sets on the pinned tree (5,000,000 rows per block, so the block loop never runs on
+    # any file a test or a simulation can afford); exposed by the guarded hook in /repo (MOKAPOT_VERIF=1)
+    "TRAIN_SETS_BLOCK_SIZE",
 )
 
 # where each knob is known to be consumed on the pinned tree; used only to
@@ -32,6 +35,7 @@ EXPECTED_CONSUMERS = {
     "CHUNK_SIZE_COLUMNS_FOR_DROP_COLUMNS": ["mokapot.parsers.pin"],
     "CHUNK_SIZE_ROWS_FOR_DROP_COLUMNS": ["mokapot.parsers.pin"],
     "MERGE_SORT_CHUNK_SIZE": ["mokapot.utils"],
+    "TRAIN_SETS_BLOCK_SIZE": ["mokapot.brew"],
 }
 
 BIG = 10**9
@@ -52,7 +56,10 @@ def defaults():
     import mokapot.constants as c  # noqa: F401
 
     mod = sys.modules["mokapot.constants"]
-    return {k: getattr(mod, k) for k in KNOBS}
+    out = {k: getattr(mod, k) for k in KNOBS}
+    if out["TRAIN_SETS_BLOCK_SIZE"] is None:
+        raise RuntimeError("hook guard off: start mokapot with MOKAPOT_VERIF=1 (./check does)")
+    return out
 
 
 _ORIG = None
